@@ -180,3 +180,5 @@ V('C09', 'commit-unit-global-under-user-schema', 'edb/server/compiler/compiler.p
 # negative control: the failed-transaction guard with the tuple reordered
 V('C09', 'neg-failed-tx-tuple-reordered', 'edb/server/compiler/compiler.py', 'edb.server.compiler.compiler._compile_ql_transaction',
   '(qlast.RollbackTransaction, qlast.RollbackToSavepoint)', '(qlast.RollbackToSavepoint, qlast.RollbackTransaction)', None)
+V('C09', 'lint-replace-result-dropped', D, TX + '_declare_savepoint',
+  'sp_state = self._current._replace(id=sp_id, name=name)', 'sp_state = self._current\n        self._current._replace(id=sp_id, name=name)', 'C09.L', 'slips:discarded-update')
